@@ -127,6 +127,57 @@ Proof.
     + intros (p & c & i & Hp & Hc & Ht). exists (i, j). split; [reflexivity|]. apply S. exists p, c. auto.
 Qed.
 
+(* the same over any join kind: a row is removed from a target table iff its position occurs (in the position
+   column of that table) in a joined row that ON and WHERE keep; the joined rows are those of the join
+   theorems of C03 over the rows extended by their position *)
+Definition occurs_at (n : nat) (kept : list row) (i : nat) : Prop :=
+  exists r z, In r kept /\ nth_error r n = Some (VInt z) /\ Z.to_nat z = i.
+
+Lemma in_flat_idx n kept i : In i (flat_map (idx_at n) kept) <-> occurs_at n kept i.
+Proof.
+  rewrite in_flat_map. unfold occurs_at, idx_at. split.
+  - intros (r & Hr & Hi). destruct (nth_error r n) as [v|] eqn:E; [|destruct Hi].
+    destruct v as [|z|f|s|b|t|nn]; try (destruct Hi; fail). destruct Hi as [<-|[]]. exists r, z. auto.
+  - intros (r & z & Hr & E & <-). exists r. split; [exact Hr|]. rewrite E. left. reflexivity.
+Qed.
+
+Theorem delete_join_k_spec k tp tc lw rw on wh ps cs ps' np cs' nc :
+  delete_join_k k tp tc lw rw on wh ps cs = Ok ((ps', np), (cs', nc)) ->
+  exists kept,
+    kept_join_rows k lw rw on wh ps cs = Ok kept /\
+    (if tp then exists idx, (forall i, In i idx <-> occurs_at lw kept i) /\ NoDup idx /\
+                            ps' = remove_idx idx ps /\ np = Z.of_nat (length idx)
+     else ps' = ps /\ np = 0%Z) /\
+    (if tc then exists idx, (forall j, In j idx <-> occurs_at (S lw + rw) kept j) /\ NoDup idx /\
+                            cs' = remove_idx idx cs /\ nc = Z.of_nat (length idx)
+     else cs' = cs /\ nc = 0%Z).
+Proof.
+  unfold delete_join_k. destruct (kept_join_rows k lw rw on wh ps cs) as [kept|e]; cbn [bind]; [|discriminate].
+  intros E. exists kept. split; [reflexivity|]. split.
+  - destruct tp; inversion E; [|split; reflexivity].
+    eexists. split; [|split; [apply nodup_nat_NoDup|split; reflexivity]].
+    intros i. rewrite nodup_nat_in. apply in_flat_idx.
+  - destruct tc; inversion E; [|split; reflexivity].
+    eexists. split; [|split; [apply nodup_nat_NoDup|split; reflexivity]].
+    intros j. rewrite nodup_nat_in. apply in_flat_idx.
+Qed.
+
+(* the position column of the rows handed to the join holds the position *)
+Lemma with_idx_nth (rows : list row) i r :
+  nth_error rows i = Some r -> nth_error (with_idx rows) i = Some (r ++ [VInt (Z.of_nat i)]).
+Proof.
+  unfold with_idx. intros H.
+  assert (E : nth_error (combine (seq 0 (length rows)) rows) i = Some (i, r)).
+  { assert (G : forall (l : list row) n k x, nth_error l k = Some x ->
+                 nth_error (combine (seq n (length l)) l) k = Some ((n + k)%nat, x)).
+    { induction l as [|y l IH]; intros n k x Hk; [destruct k; discriminate|].
+      destruct k as [|k]; cbn in Hk |- *.
+      - inversion Hk. now rewrite Nat.add_0_r.
+      - rewrite (IH (S n) k x Hk). f_equal. f_equal. lia. }
+    exact (G rows 0%nat i r H). }
+  exact (map_nth_error (fun ir : nat * row => snd ir ++ [VInt (Z.of_nat (fst ir))]) i _ E).
+Qed.
+
 (* multi-table UPDATE: number and order of p's rows are kept and the rows that take part in no kept joined row
    are unchanged (c is not an output at all) *)
 Lemma update_join_loop_frame sets ps cs : forall hs done acc out n,
